@@ -16,7 +16,10 @@ Before(k) == {DefaultOrder[i] : i \in 1..(OrderIdx(k) - 1)}
 (* single-component edits and their footprints: the kinds of records that may be rewritten, added or removed *)
 Edits == {"Empty", "ThetaValue", "OmegaValue", "SigmaValue", "AddTheta", "RemoveTheta", "Description", "EstOptions",
           "AddEst", "RemoveEst", "AddCov", "PkStatement", "PredStatement", "ErrorStatement", "AddEta", "RemoveEta",
-          "Rename", "Dataset"}
+          "Rename", "Dataset",
+          \* two successive statement edits in ONE code record with the code regenerated in between:
+          \* insert (or remove) a statement at the top of the record, then change its last statement
+          "CodeInsertThenEdit", "CodeRemoveThenEdit"}
 Touches(e) ==
     CASE e = "Empty" -> {}
       [] e \in {"ThetaValue", "AddTheta"} -> {"THETA"}
@@ -29,6 +32,7 @@ Touches(e) ==
       \* (NEXTPROBLEM: everything from a second $PROBLEM on -- the $DESIGN problem of an EFIM step shares the MSF file name)
       [] e \in {"EstOptions", "AddEst", "RemoveEst", "AddCov"} -> {"ESTIMATION", "COVARIANCE", "TABLE", "NEXTPROBLEM"}
       [] e = "PkStatement" -> {"PK"}
+      [] e \in {"CodeInsertThenEdit", "CodeRemoveThenEdit"} -> {"PK", "PRED"}
       [] e = "PredStatement" -> {"PRED"}
       [] e = "ErrorStatement" -> {"ERROR"}
       [] e \in {"AddEta", "RemoveEta"} -> {"OMEGA", "PK", "PRED", "ABBREVIATED", "SIZES", "ETAS"}
@@ -72,6 +76,16 @@ PlacementHolds(old, new, e) ==
      (2) no comment is corrupted: a new comment may not be an extension / truncation of an old comment that is
          itself gone (text glued onto a comment line, or a comment cut short) -- whatever the kind of its record.
    Comments that vanish together with a record that was rewritten are admitted (the record expressed the component). *)
+(* Lines of an edited code record.  oldl: its lines before the edit(s) as <<lid, keep>> (lid = identity of the exact
+   line text; keep = the line does not belong to an edited / removed statement: comments, verbatim lines, the other
+   statements), newl: the lids of its lines afterwards.  Frame inside the record: the lines to keep occur exactly
+   once each (as often as before) and in the same order -- no stale copy, no loss, nothing glued onto them.      *)
+KeepLines(oldl) == SelectSeq([i \in 1..Len(oldl) |-> IF oldl[i][2] THEN oldl[i][1] ELSE 0], LAMBDA x : x # 0)
+LinesHold(oldl, newl) ==
+    LET keep == KeepLines(oldl)
+        ids == {keep[i] : i \in 1..Len(keep)}
+    IN SelectSeq(newl, LAMBDA x : x \in ids) = keep
+
 CommentIds(cs) == {cs[i][2] : i \in 1..Len(cs)}
 UntouchedComments(cs, e) == SelectSeq(cs, LAMBDA c : c[1] \notin Touches(e))
 CommentsHold(oldc, newc, e) ==
